@@ -56,7 +56,104 @@ def bounds(tier, seed):
     }
 
 
+PADDED = ["ghz", "w", "product", "bell_pairs"]
+
+
+def _padded_factors(kind, n, dim, pad):
+    """exact MPS of a named state on n sites, every inner bond widened by `pad` unused (all-zero) channels"""
+    import torch
+
+    def t(a):
+        return torch.tensor(a, dtype=torch.complex128)
+
+    if kind == "product":
+        base = [np.zeros((1, dim, 1), dtype=complex) for _ in range(n)]
+        for k, b in enumerate(base):
+            b[0, 0, 0], b[0, 1, 0] = (0.6, 0.8j) if k % 2 == 0 else (1.0, 0.0)
+    elif kind == "ghz":
+        base = []
+        for k in range(n):
+            a = np.zeros((1 if k == 0 else 2, dim, 1 if k == n - 1 else 2), dtype=complex)
+            for s_ in (0, 1):
+                a[0 if k == 0 else s_, s_, 0 if k == n - 1 else s_] = (2**-0.5 if k == 0 else 1.0)
+            base.append(a)
+    elif kind == "w":
+        base = []
+        for k in range(n):
+            a = np.zeros((1 if k == 0 else 2, dim, 1 if k == n - 1 else 2), dtype=complex)
+            # channel 0: no excitation so far, channel 1: one excitation placed
+            L0, R0, R1 = 0, 0, (0 if k == n - 1 else 1)
+            if k == 0:
+                a[0, 0, 0 if n == 1 else 0] = 1.0
+                a[0, 1, R1] = 1.0
+            elif k == n - 1:
+                a[0, 1, 0] = 1.0  # still none placed: place it here
+                a[1, 0, 0] = 1.0  # already placed
+            else:
+                a[0, 0, 0] = 1.0
+                a[0, 1, 1] = 1.0
+                a[1, 0, 1] = 1.0
+            base.append(a)
+        base[0] = base[0] / np.sqrt(n)
+    else:  # Bell pairs on (0,1), (2,3), ...: zero entanglement across every second bond
+        base = []
+        for k in range(n):
+            if k % 2 == 0 and k + 1 < n:
+                a = np.zeros((1, dim, 2), dtype=complex)
+                a[0, 0, 0] = a[0, 1, 1] = 2**-0.5
+            elif k % 2 == 1:
+                a = np.zeros((2, dim, 1), dtype=complex)
+                a[0, 0, 0] = a[1, 1, 0] = 1.0
+            else:
+                a = np.zeros((1, dim, 1), dtype=complex)
+                a[0, 0, 0] = 1.0
+            base.append(a)
+    out = []
+    for k, a in enumerate(base):
+        l, _, r = a.shape
+        lp = 0 if k == 0 else pad
+        rp = 0 if k == n - 1 else pad
+        b = np.zeros((l + lp, dim, r + rp), dtype=complex)
+        b[:l, :, :r] = a
+        out.append(t(b))
+    return out
+
+
+def _direct_case(case):
+    """observable methods called directly on an MPS given by its factors (no backend run in between): the singular spectrum at a cut may
+    contain exact zeros (unused bond channels), which no state produced by a run ever has"""
+    import torch
+    import emu_mps as m
+    from mc.ref.mps_dense import mps_to_vec
+
+    n, dim, kind, pad = case["n"], case["dim"], case["state"], case["pad"]
+    eig = ("r", "g") if dim == 2 else ("r", "g", "x")
+    cnt = 0
+    for cut in range(n - 1):
+        f = _padded_factors(kind, n, dim, pad)
+        vec = mps_to_vec(f)
+        vec = vec / np.linalg.norm(vec)
+        mps = m.MPS(f, eigenstates=eig, num_gpus_to_use=0)
+        got = complex(mps.entanglement_entropy(cut))
+        sv_ = np.linalg.svd(vec.reshape(dim ** (cut + 1), -1), compute_uv=False)
+        p = sv_[sv_ > 1e-150] ** 2
+        ref = float(-(p * np.log(p)).sum())
+        cnt += 1
+        if not np.isfinite(got.real) or abs(got - ref) > 1e-9 or not (-1e-12 <= got.real <= np.log(dim) * min(cut + 1, n - cut - 1) + 1e-9):
+            return result(False, sig=f"direct|entanglement_entropy|{'nonfinite' if not np.isfinite(got.real) else 'value'}", msg=f"{kind} state on {n} sites (dim {dim}) written with {pad} unused bond channel(s): entanglement entropy at bond {cut} is {got}, definition gives {ref}", outcome="viol")
+        # the state itself must still be the same vector afterwards
+        after = mps_to_vec(mps.factors)
+        if abs(abs(np.vdot(after, vec)) - np.linalg.norm(after)) > 1e-9 * np.linalg.norm(after):
+            return result(False, sig="direct|entanglement_entropy|state-changed", msg=f"{kind} on {n} sites: the state changed direction while its entropy was computed", outcome="viol")
+    return result(True, outcome=["direct", kind, n, dim, pad], states=cnt, transitions=cnt, nontrivial=kind != "product")
+
+
 def cases(tier, seed):
+    for n in (2, 3, 4) + ((5,) if tier == "thorough" else ()):
+        for dim in (2, 3):
+            for kind in PADDED:
+                for pad in (0, 1, 2):
+                    yield {"family": "direct", "n": n, "dim": dim, "state": kind, "pad": pad}
     shapes = ["pair", "bent3"] + (["zig4"] if tier == "thorough" else [])
     for rep in ("sv", "dm", "mps", "mps3"):
         for shape in shapes:
@@ -162,6 +259,8 @@ def run_case(case):
     import emu_sv as sv
     import emu_mps.mps_backend_impl as impl_mod
 
+    if case.get("family") == "direct":
+        return _direct_case(case)
     rep = case["rep"]
     shape = case["shape"]
     coords = kit.SHAPES[shape]
